@@ -145,11 +145,203 @@ theorem c08_duplicate_skipped (d : Descends) (parts : List Part) (ov : Bool) (st
     (hr : st.readIds.contains o.id = true) : readObj d parts ov st o = st := by
   simp only [readObj, hr, if_true]
 
+/-! ### the writing side, and write-then-read -/
+
+/-- what a part carries is what the source container holds under that name -/
+def PartOk (F : Files.St) (p : Part) : Prop := AList.get p.name F.names = some (p.content, p.ctype)
+
+private theorem getters_iff (F : Files.St) (hI : Files.Inv F) (v : Name) (c : Content) (ct : CT) :
+    (Files.getContentType F v = .ctype ct ∧ Files.writeFile F v = .content c) ↔ AList.get v F.names = some (c, ct) := by
+  constructor
+  · rintro ⟨h1, h2⟩
+    unfold Files.getContentType at h1
+    unfold Files.writeFile at h2
+    cases hn : AList.get v F.names with
+    | none => simp [hn] at h1
+    | some e =>
+      obtain ⟨h, ct'⟩ := e
+      simp only [hn] at h1 h2
+      injection h1 with h1; subst h1
+      cases hs : AList.get h F.store with
+      | none => simp [hs] at h2
+      | some c' =>
+        simp only [hs] at h2
+        injection h2 with h2; subst h2
+        have := hI.storeVal h c' hs
+        simp only [Files.hash] at this
+        rw [this]
+  · intro hn
+    have hst := hI.nameStored v c ct hn
+    cases hs : AList.get c F.store with
+    | none => simp [hs] at hst
+    | some c' =>
+      have := hI.storeVal c c' hs
+      simp only [Files.hash] at this
+      subst this
+      simp [Files.getContentType, Files.writeFile, hn, hs]
+
+private theorem findPart_append_of_some {acc : List Part} {v : Name} {p : Part} (q : Part) (h : findPart acc v = some p) :
+    findPart (acc ++ [q]) v = some p := by
+  unfold findPart at h ⊢
+  rw [List.find?_append, h]; rfl
+
+private theorem collectParts_mono (d : Descends) (F : Files.St) : ∀ (fs : List FileEl) (acc : List Part) (v : Name) (p : Part),
+    findPart acc v = some p → findPart (collectParts d F fs acc) v = some p
+  | [], acc, v, p, h => h
+  | f :: r, acc, v, p, h => by
+    simp only [collectParts]
+    split
+    · split
+      · split
+        · split
+          · exact collectParts_mono d F r acc v p h
+          · exact collectParts_mono d F r _ v p (findPart_append_of_some _ h)
+        · exact collectParts_mono d F r acc v p h
+      · exact collectParts_mono d F r acc v p h
+    · exact collectParts_mono d F r acc v p h
+
+
+/-- **Writer, soundness**: every packaged part is a file of the source container, with its content and type. -/
+theorem c08_writer_sound (d : Descends) (F : Files.St) (hI : Files.Inv F) : ∀ (fs : List FileEl) (acc : List Part),
+    (∀ p ∈ acc, PartOk F p) → ∀ p ∈ collectParts d F fs acc, PartOk F p
+  | [], acc, h => h
+  | f :: r, acc, h => by
+    simp only [collectParts]
+    split
+    · rename_i v hv
+      split
+      · split
+        · rename_i ct c hct hc
+          split
+          · exact c08_writer_sound d F hI r acc h
+          · apply c08_writer_sound d F hI r
+            intro p hp
+            rcases List.mem_append.1 hp with hp | hp
+            · exact h p hp
+            · simp only [List.mem_singleton] at hp; subst hp
+              exact (getters_iff F hI v c ct).1 ⟨hct, hc⟩
+        · exact c08_writer_sound d F hI r acc h
+      · exact c08_writer_sound d F hI r acc h
+    · exact c08_writer_sound d F hI r acc h
+
+private theorem findPart_name {acc : List Part} {v : Name} {p : Part} (h : findPart acc v = some p) : p.name = v ∧ p ∈ acc := by
+  unfold findPart at h
+  exact ⟨by simpa using List.find?_some h, List.mem_of_find?_eq_some h⟩
+
+/-- **Writer, completeness**: every reachable File element whose value is a local name held by the source container is
+    packaged, under that name, with the container's content and content type. -/
+theorem c08_writer_complete (d : Descends) (F : Files.St) (hI : Files.Inv F) : ∀ (fs : List FileEl) (acc : List Part),
+    (∀ p ∈ acc, PartOk F p) →
+    ∀ f ∈ fs, ∀ v c ct, f.value = some v → (reachable d f && isLocal v) = true → AList.get v F.names = some (c, ct) →
+      findPart (collectParts d F fs acc) v = some ⟨v, c, ct⟩
+  | [], _, _, f, hf => by cases hf
+  | g :: r, acc, hacc, f, hf => by
+    intro v c ct hv hl hn
+    have hget := (getters_iff F hI v c ct).2 hn
+    rcases List.mem_cons.1 hf with rfl | hf'
+    · -- the element itself
+      simp only [collectParts, hv, hl, if_true, hget.1, hget.2]
+      split
+      · rename_i hany
+        -- a part of that name is already there: it carries the same content
+        obtain ⟨q, hq, hqn⟩ := List.any_eq_true.1 hany
+        have hqn' : q.name = v := by simpa using hqn
+        cases hfp : findPart acc v with
+        | none =>
+          exfalso
+          unfold findPart at hfp
+          have := List.find?_eq_none.1 hfp q hq
+          simp [hqn'] at this
+        | some p =>
+          obtain ⟨hpn, hpm⟩ := findPart_name hfp
+          have hpo := hacc p hpm
+          unfold PartOk at hpo
+          rw [hpn, hn] at hpo
+          have : p = ⟨v, c, ct⟩ := by
+            cases p; simp only [Part.mk.injEq]; simp only at hpn hpo
+            injection hpo with hpo; injection hpo with h1 h2
+            exact ⟨hpn, h1.symm, h2.symm⟩
+          rw [← this]
+          exact collectParts_mono d F r acc v p hfp
+      · rename_i hany
+        apply collectParts_mono d F r
+        unfold findPart
+        rw [List.find?_append]
+        have : List.find? (fun p => decide (p.name = v)) acc = none := by
+          apply List.find?_eq_none.2
+          intro q hq hqn
+          apply hany
+          exact List.any_eq_true.2 ⟨q, hq, by simpa using hqn⟩
+        rw [this]
+        simp
+    · -- an element further down the list
+      have hacc' : ∀ acc', (∀ p ∈ acc', PartOk F p) →
+          findPart (collectParts d F r acc') v = some ⟨v, c, ct⟩ :=
+        fun acc' h' => c08_writer_complete d F hI r acc' h' f hf' v c ct hv hl hn
+      simp only [collectParts]
+      split
+      · rename_i w hw
+        split
+        · split
+          · rename_i ct' c' hct hc
+            split
+            · exact hacc' acc hacc
+            · apply hacc'
+              intro p hp
+              rcases List.mem_append.1 hp with hp | hp
+              · exact hacc p hp
+              · simp only [List.mem_singleton] at hp; subst hp
+                exact (getters_iff F hI w c' ct').1 ⟨hct, hc⟩
+          · exact hacc' acc hacc
+        · exact hacc' acc hacc
+      · exact hacc' acc hacc
+
+
+private theorem filesOk_get (d : Descends) (parts : List Part) (G' : Files.St) : ∀ (fs fs' : List FileEl), FilesOk d parts G' fs fs' →
+    ∀ (i : Nat) (f : FileEl), fs[i]? = some f → ∃ f', fs'[i]? = some f' ∧ FilesOk d parts G' [f] [f']
+  | [], [], _, i, f, h => by simp at h
+  | [], _ :: _, h, _, _, _ => by simp [FilesOk] at h
+  | _ :: _, [], h, _, _, _ => by simp [FilesOk] at h
+  | g :: r, g' :: r', h, i, f, hi => by
+    simp only [FilesOk] at h
+    cases i with
+    | zero =>
+      simp only [List.getElem?_cons_zero, Option.some.injEq] at hi; subst hi
+      exact ⟨g', by simp, by simp only [FilesOk]; exact ⟨h.1, h.2.1, trivial⟩⟩
+    | succ j =>
+      simp only [List.getElem?_cons_succ] at hi
+      obtain ⟨f', hf', hok⟩ := filesOk_get d parts G' r r' h.2.2 j f hi
+      exact ⟨f', by simpa using hf', hok⟩
+
+/-- **Package round trip for the files**: write the File elements `fs` of the payload from a source container `F`, read
+    the package into ANY receiving container `G` (empty or not).  Every File element that the traversal reaches and that
+    named a file of `F` by an absolute local name then names a file of the receiving container with exactly the
+    bytes and content type `F` held. -/
+theorem c08_package_files_roundtrip (d : Descends) (F G : Files.St) (hF : Files.Inv F) (hG : Files.Inv G) (fs : List FileEl)
+    (i : Nat) (f : FileEl) (hi : fs[i]? = some f) (v : Name) (c : Content) (ct : CT) (hv : f.value = some v)
+    (hl : (reachable d f && isLocal v) = true) (habs : realpath v = v)
+    (hc : AList.get v (Files.abs F) = some (c, ct)) :
+    ∃ f' n, (collectFiles d (collectParts d F fs []) G fs).2[i]? = some f' ∧ f'.value = some n ∧
+      AList.get n (Files.abs (collectFiles d (collectParts d F fs []) G fs).1) = some (c, ct) := by
+  rw [Files.abs_eq_names F hF] at hc
+  have hmem : f ∈ fs := List.mem_of_getElem? hi
+  have hpart := c08_writer_complete d F hF fs [] (by simp) f hmem v c ct hv hl hc
+  obtain ⟨_, hok, _⟩ := c08_files d (collectParts d F fs []) fs G hG
+  obtain ⟨f', hf', hone⟩ := filesOk_get d _ _ fs _ hok i f hi
+  simp only [FilesOk, hv, hl, if_true, habs, hpart] at hone
+  obtain ⟨_, ⟨n, hn, hb⟩, _⟩ := hone
+  exact ⟨f', n, hf', hn, hb⟩
+
+
 /-! ### non-vacuity: a container that already holds another file under the package's file name -/
 
 def demoG : Files.St := (Files.addFile Files.init "/aasx/files/a.pdf".toList "OLD".toList "text/plain".toList).1
 def demoParts : List Part := [⟨"/aasx/files/a.pdf".toList, "NEW".toList, "application/pdf".toList⟩]
 def demoFiles : List FileEl := [⟨[.entity], some "/aasx/files/a.pdf".toList⟩, ⟨[], some "https://x/y".toList⟩]
+
+/-- write-then-read on a concrete pair of containers: the source holds NEW under the name the receiver uses for OLD -/
+def demoF : Files.St := (Files.addFile Files.init "/aasx/files/a.pdf".toList "NEW".toList "application/pdf".toList).1
+example : collectParts Gen.Aasx.descends demoF demoFiles [] = demoParts := by decide
 
 example : (collectFiles Gen.Aasx.descends demoParts demoG demoFiles).2 =
     [⟨[.entity], some "/aasx/files/a_0001.pdf".toList⟩, ⟨[], some "https://x/y".toList⟩] := by decide
